@@ -255,6 +255,15 @@ func (c *compiler) compileType(y *Type, parent Leafable, isUnion bool) error {
 		return errors.New("no type set on " + SchemaPath(parent))
 	}
 	if int(y.format) != 0 {
+		// the type object is shared by every expansion of a grouping and was compiled
+		// for an earlier one, but default and units are inherited per leaf
+		if _, builtinType := val.TypeAsFormat(y.ident); !builtinType && !isUnion {
+			tdef, err := c.findTypedef(y, parent, y.ident)
+			if err != nil {
+				return err
+			}
+			inheritFromTypedef(parent, tdef)
+		}
 		if _, isList := parent.(*LeafList); isList && !y.format.IsList() {
 			y.format = y.format.List()
 		}
@@ -273,14 +282,7 @@ func (c *compiler) compileType(y *Type, parent Leafable, isUnion bool) error {
 		tdef.dtype.mixin(y)
 
 		if !isUnion {
-			if !parent.HasDefault() {
-				if tdef.HasDefault() {
-					parent.setDefaultValue(tdef.DefaultValue())
-				}
-			}
-			if parent.Units() == "" {
-				parent.setUnits(tdef.Units())
-			}
+			inheritFromTypedef(parent, tdef)
 		}
 	}
 
@@ -364,6 +366,18 @@ func (c *compiler) compileType(y *Type, parent Leafable, isUnion bool) error {
 	}
 
 	return nil
+}
+
+// a leaf that states no default or units takes those of its typedef
+func inheritFromTypedef(parent Leafable, tdef *Typedef) {
+	if !parent.HasDefault() {
+		if tdef.HasDefault() {
+			parent.setDefaultValue(tdef.DefaultValue())
+		}
+	}
+	if parent.Units() == "" {
+		parent.setUnits(tdef.Units())
+	}
 }
 
 func (c *compiler) findTypedef(y *Type, parent Definition, qualifiedIdent string) (*Typedef, error) {
